@@ -71,7 +71,10 @@ def lk3(ctx, flavours):
             # callee summaries: a crate-local callee that can unwrap
             if not panicky:
                 continue
-            out.append(Obl('LK3', b['q'], t['sp'], 'panic-capable call under a write guard: %s' % c, False,
+            pv = F.prov(b)
+            src = unwrap_payload(pv.of_operand(t['args'][0])) if t['args'] else None
+            srcname = src[1].split('::')[-1] if isinstance(src, tuple) and src and src[0] == 'call' else pretty(src)
+            out.append(Obl('LK3', b['q'], t['sp'], 'panic-capable call under a write guard: %s of %s' % (c.split('::')[-1], srcname), False,
                            'a panic here poisons the lock held in ' + ', '.join('_%d' % l for l in sorted(ex))))
     # positive instances: every site where an ex guard is held and a call happens, that is fine
     n_ok = 0
@@ -143,6 +146,13 @@ def _subst_role(role, args):
     i = int(m.group(1)) - 1
     if i < len(args):
         a = strip_payload(args[i])
+        if m.group(2):
+            # P1.<field> of an iterator built by Node::iter*(Pk): the iterated node is Pk
+            for c in term_calls(a):
+                if re.search(r'::node::Node::(iter_out|iter_in|iter)$|IntoIterator>::into_iter$', c[1]) and c[2]:
+                    x = strip_payload(c[2][0])
+                    if isinstance(x, tuple) and x[0] == 'param':
+                        return 'P%d' % x[1]
         if isinstance(a, tuple) and a[0] == 'param' and not m.group(2):
             return 'P%d' % a[1]
         if isinstance(a, tuple) and a[0] == 'f' and isinstance(a[1], tuple) and a[1][0] == 'param' and not m.group(2):
